@@ -16,8 +16,9 @@ the source), and `c19_refill_fits` shows: for every bucket so made — capacity 
 value of the refill is in `int64` range for 2⁵⁷ ns (four and a half years) after the bucket was made, so there the
 `int64` computation IS the `Int` computation of the model.
 
-Not covered (stated, not proved): the wait computation `endTick * fillInterval` of a caller whose debt is
-astronomically large (a debt of 2³¹ bytes at 1 B/s is a 68-year wait); buckets older than 2⁵⁷ ns. -/
+`c19_wait_fits` does the same for the wait computation (`endTick * fillInterval`), as long as the wait is below 2⁶¹ ns.
+Not covered (stated, not proved): waits beyond that (a debt of 2³¹ bytes at 1 B/s is a 68-year wait); buckets older
+than 2⁵⁷ ns; `availableTokens - count` for a balance below `-2⁶²`. -/
 
 namespace C19
 
@@ -81,6 +82,53 @@ theorem c19_refill_fits (cap q fi now : Int) (b : TB.B) (hq : 0 < q) (hfi : 0 < 
   have f4 : fits (b.avail + (tick - b.last) * q) := by unfold fits; omega
   refine ⟨f1, f2, by rw [hr]; exact f3, by rw [hr]; exact f4, ?_⟩
   rw [hr, wrap_of_fits _ f2, wrap_of_fits _ f3, wrap_of_fits _ f4]
+
+/-- **C19 (exactness of the wait computation).** A caller left with the negative balance `a` (its debt is `-a`
+tokens) is told to wait until tick `tick + ⌈-a/q⌉`, i.e. `endTick * fillInterval` ns after the bucket was made. As long as
+`debt × fillInterval ≤ 2⁶¹` (for a quantum of 1 that product IS the wait in ns: 73 years), `now ≤ 2⁵⁷`, and the quantum
+is below the constructor's own limit `2⁵⁰`, every intermediate value — `-a + q - 1`, the end tick, the end time, the wait —
+is an `int64` and non-negative where Go's arithmetic assumes so: the wait Go computes is the model's. -/
+theorem c19_wait_fits (q fi now a : Int) (hq : 0 < q) (hq50 : q ≤ 2^50) (hfi : 0 < fi)
+    (hnow0 : 0 ≤ now) (hnow : now ≤ 2^57) (ha : a < 0) (hdebt : (-a) * fi ≤ 2^61) :
+    let tick := Gen.Valve.tbCurrentTick now fi
+    let endTick := Gen.Valve.tbEndTick tick a q
+    fits (-a + q - 1) ∧ fits endTick ∧ fits (Gen.Valve.tbEndTimeSinceStart endTick fi) ∧
+    fits (Gen.Valve.tbEndTimeSinceStart endTick fi - now) ∧ tick ≤ endTick := by
+  intro tick endTick
+  have htk : tick = now / fi := gen_currentTick now fi hnow0
+  have htick0 : 0 ≤ tick := by rw [htk]; exact Int.ediv_nonneg hnow0 (Int.le_of_lt hfi)
+  have htfi : tick * fi ≤ now := by rw [htk]; exact Int.ediv_mul_le now (Int.ne_of_gt hfi)
+  have hticklt : tick ≤ 2^57 := by
+    have : tick * 1 ≤ tick * fi := Int.mul_le_mul_of_nonneg_left (by omega) htick0
+    omega
+  have hna : 0 < -a := by omega
+  -- the debt itself is at most 2^61 (fi ≥ 1)
+  have hdebt1 : -a ≤ 2^61 := by
+    have : (-a) * 1 ≤ (-a) * fi := Int.mul_le_mul_of_nonneg_left (by omega) (Int.le_of_lt hna)
+    omega
+  have he : endTick = tick + TBS.ceilDiv (-a) q := gen_endTick tick a q ha hq
+  -- 0 < ⌈-a/q⌉ ≤ -a
+  have hc0 : 0 ≤ TBS.ceilDiv (-a) q := by
+    unfold TBS.ceilDiv; exact Int.ediv_nonneg (by omega) (Int.le_of_lt hq)
+  have hcle : TBS.ceilDiv (-a) q ≤ -a := by
+    unfold TBS.ceilDiv
+    have h1 : (-a + q - 1) / q * q ≤ -a + q - 1 := Int.ediv_mul_le _ (Int.ne_of_gt hq)
+    have h2 : (-a + q - 1) / q - 1 < (-a + q - 1) / q := by omega
+    -- x = (-a+q-1)/q satisfies x*q ≤ -a+q-1; if x > -a then x*q ≥ (-a+1)*q ≥ -a+q  (q ≥ 1, -a ≥ 1): contradiction
+    by_cases hx : (-a + q - 1) / q ≤ -a
+    · exact hx
+    · exfalso
+      have hx' : -a + 1 ≤ (-a + q - 1) / q := by omega
+      have h3 : (-a + 1) * q ≤ (-a + q - 1) / q * q := Int.mul_le_mul_of_nonneg_right hx' (Int.le_of_lt hq)
+      have h4 : (-a + 1) * q = (-a) * q + q := by rw [Int.add_mul, Int.one_mul]
+      have h5 : (-a) * 1 ≤ (-a) * q := Int.mul_le_mul_of_nonneg_left (by omega) (Int.le_of_lt hna)
+      omega
+  have hcfi : TBS.ceilDiv (-a) q * fi ≤ (-a) * fi := Int.mul_le_mul_of_nonneg_right hcle (Int.le_of_lt hfi)
+  have hcfi0 : 0 ≤ TBS.ceilDiv (-a) q * fi := Int.mul_nonneg hc0 (Int.le_of_lt hfi)
+  have het : Gen.Valve.tbEndTimeSinceStart endTick fi = tick * fi + TBS.ceilDiv (-a) q * fi := by
+    rw [gen_endTime, he, Int.add_mul]
+  have htfi0 : 0 ≤ tick * fi := Int.mul_nonneg htick0 (Int.le_of_lt hfi)
+  refine ⟨by unfold fits; omega, by unfold fits; omega, by rw [het]; unfold fits; omega, by rw [het]; unfold fits; omega, by omega⟩
 
 /-- what `MakeValve` built for 10¹⁵ B/s before the fix (quantum 10017324, fillInterval 10 ns — read from the real
 bucket by the harness): one read, three idle hours, and the product of the refill is beyond `int64` -/
